@@ -322,6 +322,8 @@ class Ctx:
             print(f"  key={key}\n  {what}", flush=True)
 
     def merge(self, col: "Collector"):
+        if any(k.endswith("/no_return") for k, _, _ in col.viol):
+            _TIMEOUTS["n"] = 2          # workers forked from now on skip their cases: the verdict is already a violation
         for key, what, replay in col.viol:
             self.violation(key, what, replay if replay is not None else {"note": "same key as an earlier replay"})
         self.evaluations += col.evaluations
@@ -463,10 +465,37 @@ def library_raise_site(exc):
     return None
 
 
+class CaseTimeout(BaseException):      # not an Exception: the library's own `except Exception` must not swallow it
+    pass
+
+
+CASE_LIMIT_S = int(os.environ.get("VERIF_CASE_LIMIT_S", "300"))
+_TIMEOUTS = {"n": 0}          # per process: after two cases that did not return, the remaining cases of this worker are skipped
+
+
+def _on_alarm(signum, frame):
+    raise CaseTimeout()
+
+
 def guarded(col, fn, key, what, replay):
-    """run one replay case; an exception raised inside the library is a violation, one raised by the harness propagates"""
+    """run one replay case; an exception raised inside the library is a violation, one raised by the harness propagates.
+    A single case that does not return within CASE_LIMIT_S seconds (cases take milliseconds to a few seconds on the pinned
+    tree) is a violation too: the library does not terminate on an input the specification enumerated."""
+    import signal
+    import threading
+
+    if _TIMEOUTS["n"] >= 2:
+        col.bump("cases_skipped_after_two_calls_that_did_not_return")
+        return
+    use_alarm = threading.current_thread() is threading.main_thread()
+    if use_alarm:
+        old = signal.signal(signal.SIGALRM, _on_alarm)
+        signal.setitimer(signal.ITIMER_REAL, CASE_LIMIT_S)
     try:
         fn()
+    except CaseTimeout:
+        _TIMEOUTS["n"] += 1
+        col.violation(f"{key}/no_return", f"{what}: the call did not return within {CASE_LIMIT_S} s", replay)
     except MachineryFailure:
         raise
     except Exception as e:
@@ -477,6 +506,10 @@ def guarded(col, fn, key, what, replay):
             col.violation(f"{key}/raised:{type(e).__name__}", f"{what}: the library raised {e!r} at {where}", replay)
         else:
             raise
+    finally:
+        if use_alarm:
+            signal.setitimer(signal.ITIMER_REAL, 0)
+            signal.signal(signal.SIGALRM, old)
 
 
 def run_tlaps(module: str, scratch: str, timeout: int = 600) -> typing.Tuple[int, int]:
